@@ -290,6 +290,15 @@ def preroll(ctx, report, folder):
           and src(n.targets[0]) == "codes[index]"]
     ok = len(st) == 1 and src(st[0].value) == "(code, code_start, end)"
     report.check(ok, "R-FIELD-ROUTING", fn, "each caption is transmitted from its pre-rolled start", [short(s) for s in st], "4")
+    if len(st) == 1:
+        from ..core.astutil import enclosing_conjuncts
+        dom = enclosing_conjuncts(fn, st[0]) or []
+        first_excluded = any(d.replace(" ", "") in ("not(index==0)", "index>0", "index!=0", "index>=1") for d in dom)
+        report.check(first_excluded, "R-GUARD", (fn, st[0]),
+                     "the first caption is not pre-rolled (its start is never moved before the beginning of the file)",
+                     {"store_runs_under": dom,
+                      "why": None if first_excluded else "start - load time of the first caption can be negative: the "
+                                                         "timecode formatter then prints a malformed (negative) stamp"}, "4")
 
 
 def header(ctx, report, folder):
